@@ -74,6 +74,44 @@ def main_known_res_index():
     sys.exit(1 if bad else 0)
 
 
+def main_inner():
+    """fuse_buses / drop_inner_branches: the branches between the fused buses go with their group memberships, results and costs; transformers of
+    each kind are dropped from their own table"""
+    fails = []
+    net = pp.create_empty_network()
+    b = pp.create_buses(net, 4, 110.)
+    pp.create_ext_grid(net, b[0])
+    pp.create_line_from_parameters(net, b[0], b[1], 10., 0.06, 0.3, 10., 1.)
+    pp.create_line_from_parameters(net, b[2], b[3], 10., 0.06, 0.3, 10., 1.)
+    sw = pp.create_switch(net, b[1], b[2], "b", closed=True)
+    imp = pp.create_impedance(net, b[1], b[2], 0.01, 0.05, 100.)
+    dc = pp.create_dcline(net, b[1], b[2], p_mw=5., loss_percent=1., loss_mw=0.1, vm_from_pu=1., vm_to_pu=1.)
+    pp.create_poly_cost(net, dc, "dcline", 1.)
+    pp.create_load(net, b[3], 20., 5.)
+    pp.create_group(net, ["switch", "impedance", "dcline"], [[sw], [imp], [dc]], name="coupling")
+    pp.runpp(net)
+    pp.fuse_buses(net, b[1], [b[2]])
+    for d in dangling(net):
+        fails.append(f"fuse_buses: {d}")
+    for res in ("res_switch", "res_impedance", "res_dcline"):
+        if res in net and len(net[res]) and not set(net[res].index) <= set(net[res[4:]].index):
+            fails.append(f"fuse_buses: {res} has rows without element")
+    # a two-winding and a three-winding transformer with the same index
+    net = pp.create_empty_network()
+    hv = pp.create_bus(net, 110.); mv = pp.create_bus(net, 20.); lv = pp.create_bus(net, 10.); x = pp.create_bus(net, 20.)
+    pp.create_ext_grid(net, hv)
+    pp.create_transformer_from_parameters(net, hv, x, 25., 110., 20., 0.4, 10., 10., 0.05)
+    pp.create_transformer3w_from_parameters(net, hv, mv, lv, 110., 20., 10., 63., 40., 25., 10., 10.5, 11., .3, .32, .34, 30., .1)
+    pp.drop_inner_branches(net, [hv, mv, lv])
+    if len(net.trafo3w) != 0 or len(net.trafo) != 1:
+        fails.append(f"drop_inner_branches of the three buses of trafo3w 0: {len(net.trafo3w)} trafo3w and {len(net.trafo)} trafo left (expected 0 and 1)")
+    for f in fails:
+        print("REPRODUCED:", f)
+    if not fails:
+        print("not reproduced: inner branches are dropped with all their references")
+    sys.exit(1 if fails else 0)
+
+
 def main(include_known=False):
     fails = []
     ops = [("drop_elements(load)", lambda n: pp.drop_elements(n, "load", [n.load.index[3]])),
